@@ -184,6 +184,8 @@ pub struct Stats {
     /// Switches forced by the fairness bound, `sched_yield`s of simulated threads.
     pub fairness_switches: u64,
     pub spin_yields: u64,
+    /// A worker descheduled for a drawn number of steps at a rarely executed site.
+    pub rare_site_suspensions: u64,
 }
 
 impl Stats {
@@ -227,6 +229,7 @@ impl Stats {
         self.bb_guards_passed += o.bb_guards_passed;
         self.fairness_switches += o.fairness_switches;
         self.spin_yields += o.spin_yields;
+        self.rare_site_suspensions += o.rare_site_suspensions;
     }
 }
 
@@ -403,6 +406,8 @@ struct Worker {
     /// Emulated futex wait: the flag another thread's wake sets, and whether the wait has a timeout.
     futex: Option<Arc<AtomicU8>>,
     futex_timeout: bool,
+    /// Descheduled at a rarely executed site until this step of the current operation (0 = not).
+    suspend_until: u64,
 }
 
 struct Pool {
@@ -426,6 +431,11 @@ struct Policy {
     /// that a spin loop waiting for another thread cannot run for ever under a schedule that
     /// favours the spinner (any real scheduler is eventually fair).
     run_streak: u64,
+    /// A rare site triggers a priority change (PCT) or the stall one time in `2^rare_shift`; drawn
+    /// per operation, so that early and late sites of an operation are reached alike.
+    rare_shift: u32,
+    /// Likewise for the suspensions at rare sites: one time in `2^susp_shift`.
+    susp_shift: u32,
     /// Clock plan of the current root operation.
     clock_drift_ns: u64,
     clock_jump_at: u64,
@@ -603,6 +613,9 @@ impl Inner {
             };
         }
         let w = &self.pools[self.active].workers[t];
+        if w.suspend_until > self.policy.step {
+            return false;
+        }
         if let Some(f) = &w.futex {
             return w.futex_timeout || f.load(Ordering::SeqCst) != FUTEX_WAITING;
         }
@@ -704,6 +717,8 @@ impl Sim {
                     stall_done: false,
                     stall_began: 0,
                     run_streak: 0,
+                    rare_shift: 0,
+                    susp_shift: 3,
                     clock_drift_ns: 0,
                     clock_jump_at: u64::MAX,
                     clock_jump_ns: 0,
@@ -729,6 +744,7 @@ impl Sim {
         });
         bbguard::set_sim_callback(Some(bb_callback));
         bbguard::set_mode(bbguard::MODE_OFF);
+        bbguard::reset_profile();
         sim
     }
 
@@ -752,7 +768,7 @@ impl Sim {
     /// Preempt at basic-block guards during subsequent operations (needs an instrumented library).
     pub fn set_preempt_bb(self: &Arc<Sim>, on: bool) {
         let mut g = self.lock();
-        let live = on && g.cfg.pool_sizes[g.active].max(1) > 1 && g.cfg.sched != SchedMode::Seq && g.cfg.sched != SchedMode::Rev;
+        let live = on && g.cfg.pool_sizes[g.active].max(1) > 1 && g.cfg.sched != SchedMode::Seq;
         g.cfg.preempt_bb = live;
         bbguard::set_mode(if live { bbguard::MODE_SIM } else { bbguard::MODE_OFF });
     }
@@ -836,6 +852,7 @@ impl Sim {
                 ran_anything: false,
                 futex: None,
                 futex_timeout: false,
+                suspend_until: 0,
             });
         }
     }
@@ -969,8 +986,28 @@ impl Sim {
             }
         }
 
+        // A rarely executed site is where a narrow window is, if there is one: now and then the
+        // thread is descheduled right there for 32 .. 16384 scheduler steps (whatever the mode); how often
+        // is drawn per operation (one rare site in 2 .. 128).
+        let mut suspended_to: Option<usize> = None;
+        let ssh = g.policy.susp_shift;
+        if kind == YieldKind::BbRare && g.choose(1 << ssh) == 0 {
+            let others: Vec<usize> = g.runnable_set().into_iter().filter(|&t| t != me && t != DRIVER).collect();
+            if !others.is_empty() {
+                let e = 5 + g.choose(10);
+                let until = g.policy.step + (1u64 << e);
+                let a = g.active;
+                g.pools[a].workers[me].suspend_until = until;
+                g.stats.rare_site_suspensions += 1;
+                let i = g.choose(others.len() as u64) as usize;
+                suspended_to = Some(others[i]);
+            }
+        }
+
         // Decide who runs next. `None` = keep running.
-        let next: Option<usize> = if forced {
+        let next: Option<usize> = if let Some(t) = suspended_to {
+            Some(t)
+        } else if forced {
             let mut waited_ms = 0u64;
             let mut set = loop {
                 let mut set = g.runnable_set();
@@ -988,6 +1025,13 @@ impl Sim {
                     break set;
                 }
                 let a = g.active;
+                if g.pools[a].workers.iter().any(|w| w.suspend_until > g.policy.step) {
+                    // everybody who could run is descheduled: the suspensions end here
+                    for w in g.pools[a].workers.iter_mut() {
+                        w.suspend_until = 0;
+                    }
+                    continue;
+                }
                 let waiting_on_futex = g.pools[a].workers.iter().filter(|w| w.futex.is_some()).count();
                 drop(g);
                 if waiting_on_futex == 0 {
@@ -1050,7 +1094,11 @@ impl Sim {
                 }
                 SchedMode::Pct => {
                     let step = g.policy.step;
-                    if g.policy.pct_points.contains(&step) {
+                    // priority-change points: the drawn steps, and - one time in three - a rarely
+                    // executed site (the place where a narrow window is, if there is one)
+                    let sh = g.policy.rare_shift;
+                    let at_rare_site = kind == YieldKind::BbRare && g.choose(1 << sh) == 0;
+                    if g.policy.pct_points.contains(&step) || at_rare_site {
                         g.policy.pct_low -= 1;
                         let low = g.policy.pct_low;
                         let a = g.active;
@@ -1065,6 +1113,13 @@ impl Sim {
                         .max_by_key(|&t| g.pools[a].workers[t].priority)
                 }
                 SchedMode::Stall => {
+                    // the stall begins at the drawn step of the drawn victim, or - one time in three - for
+                    // whoever reaches a rarely executed site first
+                    let sh = g.policy.rare_shift;
+                    if kind == YieldKind::BbRare && !g.policy.stall_done && !g.policy.stalled && g.choose(1 << sh) == 0 {
+                        g.policy.stall_victim = me;
+                        g.policy.stall_at = 0;
+                    }
                     let p = &g.policy;
                     if !p.stall_done
                         && !p.stalled
@@ -1154,6 +1209,12 @@ impl Sim {
             completed_max: -1,
         };
         g.policy.step = 0;
+        {
+            let a = g.active;
+            for w in g.pools[a].workers.iter_mut() {
+                w.suspend_until = 0;
+            }
+        }
         g.policy.stalled = false;
         g.policy.stall_done = false;
         // clock plan: mostly none; steady drift; or one jump somewhere in the operation
@@ -1185,6 +1246,8 @@ impl Sim {
             };
             bbguard::set_salt(salt);
             bbguard::reset_hits();
+            g.policy.rare_shift = g.choose(7) as u32 + 1;
+            g.policy.susp_shift = g.choose(7) as u32 + 1;
         }
         let k = g.k() as u64;
         match g.cfg.sched {
